@@ -30,7 +30,10 @@ VARIABLES state,         \* "ready" | "started" | "stopping" | "stopped"
 vars == <<state, phase, ctxLive, sockOpen, tunOpen, goroutines, stops, hist>>
 
 OnStart == {"udpReader", "tunReader", "handshakeManager", "connectionManager", "lighthouseWorker", "punchy"}
-CtxBound  == {"handshakeManager", "connectionManager", "lighthouseWorker", "punchy", "reloadWatcher"}
+CtxBound  == {"handshakeManager", "connectionManager", "lighthouseWorker", "punchy", "reloadWatcher", "punchTimers"}
+\* punchTimers: the timer callbacks that hand punch jobs (scheduled by a lighthouse punch notification) to the punch worker's
+\* queue; when the worker is behind and the queue is full they wait for room, and must give up when the context is cancelled
+Transient == {"reloadWatcher", "punchTimers"}
 SockBound == {"udpReader"}
 TunBound  == {"tunReader"}
 
@@ -43,7 +46,9 @@ Stimulus == /\ phase < Len(Scenario)
             /\ \/ (phase < PreStart /\ state = "ready")
                \/ (phase >= PreStart /\ state = "started")
             /\ phase' = phase + 1
-            /\ goroutines' = IF Scenario[phase + 1] = "reload" /\ state = "started" THEN goroutines \cup {"reloadWatcher"} ELSE goroutines
+            /\ goroutines' = IF Scenario[phase + 1] = "reload" /\ state = "started" THEN goroutines \cup {"reloadWatcher"}
+                             ELSE IF Scenario[phase + 1] = "punchburst" /\ state = "started" THEN goroutines \cup {"punchTimers"}
+                             ELSE goroutines
             /\ hist' = Append(hist, Scenario[phase + 1])
             /\ UNCHANGED <<state, ctxLive, sockOpen, tunOpen, stops>>
 
@@ -76,9 +81,9 @@ Exit(g) == /\ g \in goroutines
            /\ goroutines' = goroutines \ {g}
            /\ UNCHANGED <<state, phase, ctxLive, sockOpen, tunOpen, stops, hist>>
 
-Next == Stimulus \/ Start \/ Stop \/ CloseInterface \/ \E g \in OnStart \cup {"reloadWatcher"} : Exit(g)
+Next == Stimulus \/ Start \/ Stop \/ CloseInterface \/ \E g \in OnStart \cup Transient : Exit(g)
 
-Fairness == WF_vars(CloseInterface) /\ \A g \in OnStart \cup {"reloadWatcher"} : WF_vars(Exit(g))
+Fairness == WF_vars(CloseInterface) /\ \A g \in OnStart \cup Transient : WF_vars(Exit(g))
 Spec == Init /\ [][Next]_vars /\ Fairness
 
 -----------------------------------------------------------------------------
